@@ -235,6 +235,13 @@ def cases(draw, only_tilewalk=False):
     case['plog'] = draw(st.booleans())
     case['concurrency'] = draw(st.sampled_from([1, 2, 2, 3]))
     case['twin'] = draw(st.sampled_from([False, True]))
+    # injected race: these tile files (index into the resolved tile list) are removed by a "concurrent actor"
+    # just before the cleanup's own lstat / remove of that file
+    if backend.startswith('file:') and draw(st.integers(0, 9)) < 4:
+        case['faults'] = [list(f) for f in draw(st.lists(
+            st.tuples(st.integers(0, 27), st.sampled_from(['lstat', 'lstat', 'remove'])), min_size=1, max_size=3))]
+    else:
+        case['faults'] = []
     return case
 
 
@@ -621,6 +628,48 @@ class _Q(object):
         return self.items.pop(0)
 
 
+class _RacingOs(object):
+    """Stands in for the `os` module as seen from mapproxy.util.fs / mapproxy.cache.file while the cleanup runs:
+    a victim file is removed by a "concurrent actor" immediately before the cleanup's own lstat/stat (op 'lstat')
+    or remove/unlink (op 'remove') of that path, so the real call fails with ENOENT exactly as in the race."""
+
+    def __init__(self, real, victims, vanished):
+        self._real = real
+        self._victims = victims      # normalised path -> op
+        self._vanished = vanished    # set of normalised paths actually taken away
+
+    def __getattr__(self, name):
+        return getattr(self._real, name)
+
+    def _hit(self, path, op):
+        try:
+            p = self._real.path.normpath(self._real.fspath(path))
+        except TypeError:
+            return
+        if self._victims.get(p) == op and p not in self._vanished:
+            try:
+                self._real.remove(p)
+                self._vanished.add(p)
+            except OSError:
+                pass
+
+    def lstat(self, path, *a, **k):
+        self._hit(path, 'lstat')
+        return self._real.lstat(path, *a, **k)
+
+    def stat(self, path, *a, **k):
+        self._hit(path, 'lstat')
+        return self._real.stat(path, *a, **k)
+
+    def remove(self, path, *a, **k):
+        self._hit(path, 'remove')
+        return self._real.remove(path, *a, **k)
+
+    def unlink(self, path, *a, **k):
+        self._hit(path, 'remove')
+        return self._real.unlink(path, *a, **k)
+
+
 class InlinePool(object):
     """Drop-in for seeder.TileWorkerPool: hands every batch to the real TileCleanupWorker.work_loop in
     this process (the shard processes are daemonic and cannot fork workers)."""
@@ -812,7 +861,29 @@ def run_once(case, root, st_, cov_mode, pool='inline'):
         has_ts = backend in TIMESTAMP_BACKENDS
         now = time.time()
         model = {}
-        for coord, age in resolve_tiles(case, grid, frame):
+        resolved = resolve_tiles(case, grid, frame)
+        faults = list(case.get('faults') or []) if (backend.startswith('file:') and pool == 'inline') else []
+        victim_coords = {}
+        if faults and resolved:
+            have = set(c for c, _ in resolved)
+            for idx, op in faults:
+                vc = resolved[idx % len(resolved)][0]
+                victim_coords.setdefault(vc, op)
+            # expired neighbours in the same column / row, so that the victim shares its directory with other
+            # tiles the cleanup still has to deal with after the race
+            for (x, y, z) in list(victim_coords):
+                gsx, gsy = grid.grid_sizes[z]
+                for dx, dy in ((0, 1), (0, -1), (0, 2), (0, -2), (1, 0), (-1, 0), (2, 0)):
+                    c = (x + dx, y + dy, z)
+                    if 0 <= c[0] < gsx and 0 <= c[1] < gsy and c not in have:
+                        have.add(c)
+                        # stored before and after the victim: directory listing order depends on creation
+                        # order on some file systems (tmpfs lists the newest entry first)
+                        if dx + dy > 0:
+                            resolved.append((c, -3600.0))
+                        else:
+                            resolved.insert(0, (c, -3600.0))
+        for coord, age in resolved:
             ts = None
             if has_ts:
                 off = age
@@ -828,6 +899,8 @@ def run_once(case, root, st_, cov_mode, pool='inline'):
         if hasattr(cache, 'cleanup'):
             cache.cleanup()
         root_main = main_root(cache, backend)
+        victims = dict((os.path.normpath(model[c]['loc']), op) for c, op in victim_coords.items())
+        vanished = set()
 
         # ---- bystanders
         by = case['by']
@@ -913,6 +986,12 @@ def run_once(case, root, st_, cov_mode, pool='inline'):
             res['task_T'] = t0.remove_timestamp
             logger = ProgressLog(out=io.StringIO(), verbose=False, silent=True) if case.get('plog') else None
             orig_pool = cleanup_mod.TileWorkerPool
+            import mapproxy.util.fs as fs_mod
+            import mapproxy.cache.file as file_mod
+            orig_os = (fs_mod.os, file_mod.os)
+            if victims:
+                fs_mod.os = _RacingOs(orig_os[0], victims, vanished)
+                file_mod.os = _RacingOs(orig_os[1], victims, vanished)
             if pool == 'inline':
                 cleanup_mod.TileWorkerPool = InlinePool
             try:
@@ -926,6 +1005,7 @@ def run_once(case, root, st_, cov_mode, pool='inline'):
                 exc = e
             finally:
                 cleanup_mod.TileWorkerPool = orig_pool
+                fs_mod.os, file_mod.os = orig_os
                 if pool != 'inline':
                     # TileWalker() can raise after the workers were started (e.g. empty level list):
                     # never leave worker processes behind
@@ -1004,6 +1084,11 @@ def run_once(case, root, st_, cov_mode, pool='inline'):
             here = present(cache, backend, coord, m['loc'])
             if not here:
                 res['removed'].add(coord)
+            if m['loc'] and os.path.normpath(m['loc']) in vanished:
+                # taken away by the concurrent actor: gone either way, not the cleanup's doing
+                res['band'].add(coord)
+                res['classes'].append('tile:raced-away-at-' + victims[os.path.normpath(m['loc'])])
+                continue
             if age == 'band' or geo == 'touch':
                 res['band'].add(coord)
                 res['classes'].append('tile:band-' + ('time' if age == 'band' else 'touch'))
@@ -1043,6 +1128,9 @@ def run_once(case, root, st_, cov_mode, pool='inline'):
         if kept_expired:
             coord, ts = kept_expired[0]
             what = abort or 'kept-expired'
+            if not abort and any(os.path.dirname(v) == os.path.dirname(os.path.normpath(model[coord]['loc'] or ''))
+                                 for v in vanished):
+                what = 'kept-expired-after-raced-file'
             if not abort and full and backend in LEVEL_DIR_LAYOUTS:
                 # root-cause diagnosis: does the directory the walk is pointed at contain the tile at all?
                 try:
@@ -1062,7 +1150,12 @@ def run_once(case, root, st_, cov_mode, pool='inline'):
             sig = accepted_sig or (prefix + 'removed-' + why)
             V.append((sig, 'tile %r (mtime %r, T %r, selected levels %r) was removed: %s; %d such tiles'
                       % (coord, ts, T, sorted(sel), why, len(removed_wrong))))
-        if exc is not None and res['aborted'] is None and not kept_expired:
+        if vanished:
+            res['classes'].append('fault:file-vanished-under-' + ('tilewalk' if tilewalk else 'dirwalk'))
+        if exc is not None and res['aborted'] is None and vanished and not kept_expired:
+            V.append((prefix + 'raced-file-abort-' + type(exc).__name__,
+                      'a tile file that vanished during the cleanup made it raise %r' % (exc,)))
+        elif exc is not None and res['aborted'] is None and not kept_expired:
             res['classes'].append('raised-without-obligation')
             st_.notes['cleanup raised %s with nothing left to remove' % type(exc).__name__] += 1
         _check_bystanders(V, prefix, before, after, root, root_main, protected, others, backend)
